@@ -63,6 +63,7 @@ inductive Parsed where
   | warn
   | plain          -- an unencrypted frame: a key exchange on a resumed session
   | ackFault (ids : List Nat)  -- injected fault: the write of the acknowledgement naming these ids failed
+  | storeFault (salt : Int)    -- injected fault: the session store refused to write this salt
   | bad (why : String)
 
 def parseEvent (e : String) : Parsed :=
@@ -70,11 +71,14 @@ def parseEvent (e : String) : Parsed :=
   | ["N", _] => .skip
   | ["C"] => .skip
   | ["P", _] => .plain
-  | ["V", cls] => if cls == "reconnect" || cls == "ackfail" then .skip else .warn
+  | ["V", cls] => if cls == "reconnect" || cls == "ackfail" || cls == "storefail" then .skip else .warn
   | ["F", rest] =>
     match rest.splitOn ":" with
     | ["k", ids] => match (ids.splitOn "+").mapM (·.toNat?) with
       | some ids => .ackFault ids
+      | none => .bad e
+    | ["s", salt] => match salt.toInt? with
+      | some x => .storeFault x
       | none => .bad e
     | _ => .bad e
   | ["W", s] => match s.toInt? with | some x => .ev (.store x) | none => .bad e
@@ -117,6 +121,10 @@ def replay (trace : String) : String :=
       | .warn => go s rest (k + 1) (warns + 1)
       | .plain => s!"stuck@{k}:plaintext-frame-on-resumed-session"
       -- an environment fault, outside the proved step relation: the client gave these acknowledgements up
+      | .storeFault x =>
+        match s.owedStore with
+        | y :: rest' => if x = y then go { s with owedStore := rest' } rest (k + 1) warns else s!"stuck@{k}:{e}"
+        | [] => s!"stuck@{k}:{e}"
       | .ackFault ids =>
         if ids.all (fun i => s.owedAck.contains i) then go { s with owedAck := strike s.owedAck ids } rest (k + 1) warns
         else s!"stuck@{k}:{e}"
